@@ -340,6 +340,8 @@ class ExprMixin:
         if v.cls is None and v.kind in (None, 'ref') and name in ('items', 'keys', 'values', 'get', 'setdefault', 'pop', 'update',
                                                                    'append', 'extend', 'add', 'discard', 'copy', 'clear', 'remove'):
             v = self.probe_class(st, v)
+        if v.cls is None and v.kind in (None, 'ref') and not name.startswith('__'):
+            v = self.probe_instance(st, v, name)
         t = v.term
         # non-ref receivers
         if v.kind is None:
@@ -567,7 +569,10 @@ class ExprMixin:
         if v.kind == 'str' or (v.kind is None):
             ts, fs = self.fork(st, is_str(t)) if v.kind is None else (st, None)
             if ts is not None:
-                outs.append(Out('ok', ts, BoundV(BuiltinV('str.' + name), SV(t, 'str'))))
+                if hasattr(self, 'bm_str_' + name) or name in ('__class__',):
+                    outs.append(Out('ok', ts, BoundV(BuiltinV('str.' + name), SV(t, 'str'))))
+                else:
+                    outs.append(self.raise_new(ts, 'AttributeError'))
             st = fs
         if st is not None:
             if name == '__class__':
@@ -1136,6 +1141,29 @@ class ExprMixin:
         for q in ('dict', 'list', 'tuple', 'set'):
             if self.entails(st, AND(is_ref(t), clt == I(self.cls(q).id)), timeout_ms):
                 res = SV(t, 'ref', self.cls(q), True)
+                break
+        cache[key] = res
+        return res
+
+    def probe_instance(self, st, v, name, timeout_ms=800):
+        """an untyped receiver of method `name`: if the path condition (class invariants included) entails that it is an
+        instance of a repository class that introduces `name`, use that class as the static type"""
+        roots = []
+        for c in self.index.classes.values():
+            if c.external or name not in c.methods:
+                continue
+            if not any(name in b.methods for b in c.mro[1:] if not b.external):
+                roots.append(c)
+        if not roots or len(roots) > 6:
+            return v
+        key = ('probei', v.term.get_id(), name, len(st.pc))
+        cache = self.__dict__.setdefault('_probe_cache', {})
+        if key in cache:
+            return cache[key]
+        res = v
+        for c in roots:
+            if self.entails(st, self.isinstance_term(st, SV(v.term), c), timeout_ms):
+                res = SV(v.term, 'ref', c)
                 break
         cache[key] = res
         return res
